@@ -31,7 +31,9 @@ structure Reg (s : FState) : Prop where
   quoted : s.quoted = false
   escaped : s.escaped = false
   heredoc : s.heredoc = 0
-  bq : s.withinBackquote = false
+  bq : s.backquoted = false
+  hst : s.heredocStart = false
+  te : s.tokenEnded = false
   lastLT : s.last ≠ 60
 
 /-- `if openBrace && spacePrior && !openBraceWritten { … }` -/
@@ -42,18 +44,22 @@ theorem step_ws {s : FState} {c : Rune} (hr : Reg s) (hc : wsCh c = true) :
     step s c = { s with space := true, heredocEscaped := false,
                         newLines := s.newLines + (if c == rNL then 1 else 0) } := by
   obtain ⟨hsp, h13, h34, h35, h60, h92, h96, h123, h125⟩ := wsCh_spec hc
-  obtain ⟨h1, h2, h3, h4, h5, h6⟩ := hr
-  simp [step, step2, stepHeredoc, stepLiteral, stepLiteral2, rBQ, rLT, rBS, rNL, *]
+  obtain ⟨h1, h2, h3, h4, h5, h7, h8, h6⟩ := hr
+  obtain ⟨rout, last, space, bol, ob, obw, obs, nls, cm, q, esc, hd, hst, hde, mk, cl, nest, wbq, tke⟩ := s
+  simp only at h1 h2 h3 h4 h5 h6 h7 h8
+  subst h1 h2 h3 h4 h5 h7 h8
+  simp [step, stepHeredoc, stepLiteral, rLT, rBS, rNL, rCR, *]
 
 theorem step_plain {s : FState} {c : Rune} (hr : Reg s) (hc : plainCh c = true) :
     step s c = stepWord (maybeFlush { s with space := false } s.space) s.space c := by
   obtain ⟨hsp, h34, h35, h60, h92, h96, h123, h125, hbom⟩ := plainCh_spec hc
-  obtain ⟨h1, h2, h3, h4, h5, h6⟩ := hr
-  obtain ⟨rout, last, space, bol, ob, obw, obs, nls, cm, q, esc, hd, hde, mk, cl, nest, wbq⟩ := s
-  simp only at h1 h2 h3 h4 h5 h6
-  subst h1 h2 h3 h4 h5
+  obtain ⟨h1, h2, h3, h4, h5, h7, h8, h6⟩ := hr
+  obtain ⟨rout, last, space, bol, ob, obw, obs, nls, cm, q, esc, hd, hst, hde, mk, cl, nest, wbq, tke⟩ := s
+  simp only at h1 h2 h3 h4 h5 h6 h7 h8
+  subst h1 h2 h3 h4 h5 h7 h8
   have hq : (c == 34) = false := by simp [h34]
-  simp [step, step2, stepHeredoc, stepLiteral, stepLiteral2, stepRegular, stepRegular2, stepBrace, maybeFlush,
+  have hbq : (c == 96) = false := by simp [h96]
+  simp [step, stepHeredoc, stepLiteral, stepRegular, stepRegular2, stepBrace, maybeFlush,
     rBQ, rLT, rBS, rDQ, rHash, rOpen, rClose, *]
 
 /-- first character of a plain word or of a comment -/
@@ -70,37 +76,39 @@ theorem startCh_spec {c : Rune} (h : startCh c = true) :
 
 /-- `#` is an ordinary first character that additionally switches comment mode on -/
 theorem step_start {s : FState} {c : Rune} (hr : Reg s) (hc : startCh c = true) :
-    step s c = stepWord (maybeFlush { s with space := false, comment := c == rHash } s.space) s.space c := by
+    step s c = stepWord (maybeFlush { s with space := false, comment := (c == rHash && s.space) } s.space) s.space c := by
   obtain ⟨hsp, h34, h60, h92, h96, h123, h125⟩ := startCh_spec hc
-  obtain ⟨h1, h2, h3, h4, h5, h6⟩ := hr
-  obtain ⟨rout, last, space, bol, ob, obw, obs, nls, cm, q, esc, hd, hde, mk, cl, nest, wbq⟩ := s
-  simp only at h1 h2 h3 h4 h5 h6
-  subst h1 h2 h3 h4 h5
+  obtain ⟨h1, h2, h3, h4, h5, h7, h8, h6⟩ := hr
+  obtain ⟨rout, last, space, bol, ob, obw, obs, nls, cm, q, esc, hd, hst, hde, mk, cl, nest, wbq, tke⟩ := s
+  simp only at h1 h2 h3 h4 h5 h6 h7 h8
+  subst h1 h2 h3 h4 h5 h7 h8
   have hq : (c == 34) = false := by simp [h34]
+  have hbq : (c == 96) = false := by simp [h96]
   by_cases hh : c = 35
   · subst hh
-    simp [step, step2, stepHeredoc, stepLiteral, stepLiteral2, stepRegular, stepRegular2, stepBrace, maybeFlush,
-      rBQ, rLT, rBS, rDQ, rHash, rOpen, rClose, isSpace, h6]
+    cases space <;>
+    simp [step, stepHeredoc, stepLiteral, stepRegular, stepRegular2, stepBrace, maybeFlush,
+      rBQ, rLT, rBS, rDQ, rHash, rOpen, rClose, isSpace]
   · have hh' : (c == 35) = false := by simp [hh]
-    simp [step, step2, stepHeredoc, stepLiteral, stepLiteral2, stepRegular, stepRegular2, stepBrace, maybeFlush,
+    simp [step, stepHeredoc, stepLiteral, stepRegular, stepRegular2, stepBrace, maybeFlush,
       rBQ, rLT, rBS, rDQ, rHash, rOpen, rClose, *]
 
 theorem step_open {s : FState} (hr : Reg s) :
     step s rOpen = stepBrace (maybeFlush { s with space := false } s.space) s.space rOpen := by
-  obtain ⟨h1, h2, h3, h4, h5, h6⟩ := hr
-  obtain ⟨rout, last, space, bol, ob, obw, obs, nls, cm, q, esc, hd, hde, mk, cl, nest, wbq⟩ := s
-  simp only at h1 h2 h3 h4 h5 h6
-  subst h1 h2 h3 h4 h5
-  simp [step, step2, stepHeredoc, stepLiteral, stepLiteral2, stepRegular, stepRegular2, maybeFlush,
+  obtain ⟨h1, h2, h3, h4, h5, h7, h8, h6⟩ := hr
+  obtain ⟨rout, last, space, bol, ob, obw, obs, nls, cm, q, esc, hd, hst, hde, mk, cl, nest, wbq, tke⟩ := s
+  simp only at h1 h2 h3 h4 h5 h6 h7 h8
+  subst h1 h2 h3 h4 h5 h7 h8
+  simp [step, stepHeredoc, stepLiteral, stepRegular, stepRegular2, maybeFlush,
     rBQ, rLT, rBS, rDQ, rHash, rOpen, isSpace, *]
 
 theorem step_close {s : FState} (hr : Reg s) :
     step s rClose = stepBrace (maybeFlush { s with space := false } s.space) s.space rClose := by
-  obtain ⟨h1, h2, h3, h4, h5, h6⟩ := hr
-  obtain ⟨rout, last, space, bol, ob, obw, obs, nls, cm, q, esc, hd, hde, mk, cl, nest, wbq⟩ := s
-  simp only at h1 h2 h3 h4 h5 h6
-  subst h1 h2 h3 h4 h5
-  simp [step, step2, stepHeredoc, stepLiteral, stepLiteral2, stepRegular, stepRegular2, maybeFlush,
+  obtain ⟨h1, h2, h3, h4, h5, h7, h8, h6⟩ := hr
+  obtain ⟨rout, last, space, bol, ob, obw, obs, nls, cm, q, esc, hd, hst, hde, mk, cl, nest, wbq, tke⟩ := s
+  simp only at h1 h2 h3 h4 h5 h6 h7 h8
+  subst h1 h2 h3 h4 h5 h7 h8
+  simp [step, stepHeredoc, stepLiteral, stepRegular, stepRegular2, maybeFlush,
     rBQ, rLT, rBS, rDQ, rHash, rClose, isSpace, *]
 
 /-- closed forms of the two write loops -/
@@ -142,13 +150,13 @@ theorem foldl_plain_tail : ∀ (cs : List Rune) (s : FState), Reg s → s.space 
     simp only [List.all_cons, Bool.and_eq_true] at hc
     have hstep : step s c = { s with rout := c :: s.rout, last := c } := by
       rw [step_plain hr hc.1]
-      obtain ⟨rout, last, space, bol, ob, obw, obs, nls, cm, q, esc, hd, hde, mk, cl, nest, wbq⟩ := s
+      obtain ⟨rout, last, space, bol, ob, obw, obs, nls, cm, q, esc, hd, hst, hde, mk, cl, nest, wbq, tke⟩ := s
       simp only at h1 h2 h3 h4
       subst h1 h2 h3 h4
       simp [maybeFlush, stepWord, stepWord2, stepWord3, stepWord4, stepWord5, stepWord6, FState.nextLines, FState.write]
     have hp := plainCh_spec hc.1
     have hr' : Reg { s with rout := c :: s.rout, last := c } :=
-      ⟨hr.comment, hr.quoted, hr.escaped, hr.heredoc, hr.bq, hp.2.2.2.1⟩
+      ⟨hr.comment, hr.quoted, hr.escaped, hr.heredoc, hr.bq, hr.hst, hr.te, hp.2.2.2.1⟩
     rw [List.foldl_cons, hstep, foldl_plain_tail cs _ hr' h1 h2 h3 h4 hc.2]
     simp [lastOf, List.reverse_cons, List.append_assoc]
 
@@ -166,7 +174,7 @@ theorem foldl_ws : ∀ (ws : List Rune) (s : FState), Reg s → ws.all wsCh = tr
   | c :: c' :: ws, s, hr, hc, _ => by
     simp only [List.all_cons, Bool.and_eq_true] at hc
     have hr' : Reg { s with space := true, heredocEscaped := false, newLines := s.newLines + (if c == rNL then 1 else 0) } :=
-      ⟨hr.comment, hr.quoted, hr.escaped, hr.heredoc, hr.bq, hr.lastLT⟩
+      ⟨hr.comment, hr.quoted, hr.escaped, hr.heredoc, hr.bq, hr.hst, hr.te, hr.lastLT⟩
     rw [List.foldl_cons, step_ws hr hc.1, foldl_ws (c' :: ws) _ hr' (by simp [hc.2]) (by simp)]
     simp only [countNL, afterSep]
     congr 1
@@ -176,7 +184,7 @@ theorem foldl_ws : ∀ (ws : List Rune) (s : FState), Reg s → ws.all wsCh = tr
 
 set_option hygiene false in
 macro "destruct_state" s:ident : tactic =>
-  `(tactic| obtain ⟨rout, last, space, bol, ob, obw, obs, nls, cm, q, esc, hd, hde, mk, cl, nest, wbq⟩ := $s)
+  `(tactic| obtain ⟨rout, last, space, bol, ob, obw, obs, nls, cm, q, esc, hd, hst, hde, mk, cl, nest, wbq, tke⟩ := $s)
 
 /-- no `{` pending, at least one newline since the last word: newline(s) + indentation + `c` -/
 theorem first_start_nl {t : FState} {c : Rune} (hr : Reg t) (hc : startCh c = true)
@@ -192,9 +200,9 @@ theorem first_start_nl {t : FState} {c : Rune} (hr : Reg t) (hc : startCh c = tr
   by_cases hn : nest = 0
   · subst hn
     simp [maybeFlush, stepWord, stepWord2, stepWord3, stepWord4, stepWord5, stepWord6, nextLines_eq, tabs_eq,
-      FState.indent, FState.write, tabsN, nlsN, hm, h60, rLT, rNL, rClose, rTAB]
+      FState.indent, FState.write, tabsN, nlsN, hm, rNL, rClose, rTAB]
   · simp [maybeFlush, stepWord, stepWord2, stepWord3, stepWord4, stepWord5, stepWord6, nextLines_eq, tabs_eq,
-      FState.indent, FState.write, tabsN, nlsN, hm, hn, h60, rLT, rNL, rClose, rTAB]
+      FState.indent, FState.write, tabsN, nlsN, hm, hn, rNL, rClose, rTAB]
 
 /-- no `{` pending, same line, not at the beginning of a line: one blank + `c` -/
 theorem first_start_sp {t : FState} {c : Rune} (hr : Reg t) (hc : startCh c = true)
@@ -205,7 +213,7 @@ theorem first_start_sp {t : FState} {c : Rune} (hr : Reg t) (hc : startCh c = tr
   destruct_state t
   simp only at h1 h2 h3 h4
   subst h1 h2 h3 h4
-  simp [maybeFlush, stepWord, stepWord2, stepWord3, stepWord4, stepWord5, stepWord6, FState.nextLines, FState.write, h60, rLT]
+  simp [maybeFlush, stepWord, stepWord2, stepWord3, stepWord4, stepWord5, stepWord6, FState.nextLines, FState.write]
 
 /-- no `{` pending, at the beginning of a fresh line (right after the newline that ended a
     comment): indentation + `c` -/
@@ -221,9 +229,9 @@ theorem first_start_bol {t : FState} {c : Rune} (hr : Reg t) (hc : startCh c = t
   by_cases hn : nest = 0
   · subst hn
     simp [maybeFlush, stepWord, stepWord2, stepWord3, stepWord4, stepWord5, stepWord6, FState.nextLines, tabs_eq,
-      FState.indent, FState.write, tabsN, h60, rLT, rClose, rTAB]
+      FState.indent, FState.write, tabsN, rClose, rTAB]
   · simp [maybeFlush, stepWord, stepWord2, stepWord3, stepWord4, stepWord5, stepWord6, FState.nextLines, tabs_eq,
-      FState.indent, FState.write, tabsN, hn, h60, rLT, rClose, rTAB]
+      FState.indent, FState.write, tabsN, hn, rClose, rTAB]
 
 /-- no `{` pending, right after a newline was written: `}` needs no further newline -/
 theorem first_close_bol {t : FState} (hr : Reg t) (h1 : t.space = true) (h2 : t.openBrace = false) (h3 : t.last = 10) :
@@ -283,14 +291,14 @@ theorem pending_start {t : FState} {c : Rune} (hr : Reg t) (hc : startCh c = tru
   rcases h5 with ⟨rfl, rfl⟩ | ⟨rfl, rfl⟩
   · by_cases hn : nest < 10
     · simp [maybeFlush, flushOpen, flush1, flush2, flush3, flush4, stepWord, stepWord2, stepWord3, stepWord4, stepWord5,
-        stepWord6, FState.nextLines, tabs_eq, FState.indent, FState.nextLine, FState.write, tabsN, nextN, hn, h4, h60, rLT,
+        stepWord6, FState.nextLines, tabs_eq, FState.indent, FState.nextLine, FState.write, tabsN, nextN, hn, h4,
         rNL, rClose, rTAB, rOpen]
     · have : nest ≠ 0 := by omega
       simp [maybeFlush, flushOpen, flush1, flush2, flush3, flush4, stepWord, stepWord2, stepWord3, stepWord4, stepWord5,
-        stepWord6, FState.nextLines, tabs_eq, FState.indent, FState.nextLine, FState.write, tabsN, nextN, hn, h4, this, h60, rLT,
+        stepWord6, FState.nextLines, tabs_eq, FState.indent, FState.nextLine, FState.write, tabsN, nextN, hn, h4, this,
         rNL, rClose, rTAB, rOpen]
   · simp [maybeFlush, flushOpen, flush1, flush2, flush3, flush4, stepWord, stepWord2, stepWord3, stepWord4, stepWord5,
-      stepWord6, FState.nextLines, FState.tabs, FState.indent, FState.nextLine, FState.write, tabsN, nextN, h4, h60, rLT,
+      stepWord6, FState.nextLines, FState.tabs, FState.indent, FState.nextLine, FState.write, tabsN, nextN, h4,
       rNL, rClose, rTAB, rOpen]
 
 /-- a `{` is pending and the block is empty: `{`, newline, indentation one level up, `}` -/
@@ -361,7 +369,9 @@ structure InvM (N : Nat) (s : FState) : Prop where
   quoted : s.quoted = false
   escaped : s.escaped = false
   heredoc : s.heredoc = 0
-  bq : s.withinBackquote = false
+  bq : s.backquoted = false
+  hst : s.heredocStart = false
+  te : s.tokenEnded = false
   space : s.space = false
   nl : s.newLines = 0
   ob : s.openBrace = false
@@ -400,50 +410,53 @@ theorem plain_word {t t1 : FState} {a : Rune} {as : List Rune} {N : Nat}
   rw [List.foldl_cons, hstep, foldl_plain_tail as t1 hreg h1 h2 h3 h4 has]
   have hl := lastOf_plain as a ha has
   have hls := plainCh_spec hl
-  refine ⟨⟨⟨hreg.comment, hreg.quoted, hreg.escaped, hreg.heredoc, hreg.bq, ?_⟩, h1, h2, h3, h4, h5, ?_, ?_⟩, rfl⟩
+  refine ⟨⟨⟨hreg.comment, hreg.quoted, hreg.escaped, hreg.heredoc, hreg.bq, hreg.hst, hreg.te, ?_⟩, h1, h2, h3, h4, h5, ?_, ?_⟩, rfl⟩
   · simp only [h6]; exact hls.2.2.2.1
   · simp only [h6]; exact hls.1
   · obtain ⟨r, hr⟩ := h7
     simp only [h6, hr]
     exact reverse_append_lastOf as a r
 
-theorem cmtCh_spec {c : Rune} (h : cmtCh c = true) : c ≠ 10 ∧ c ≠ 96 ∧ c ≠ 92 := by
-  simpa [cmtCh, rNL, rBQ, rBS, and_assoc] using h
+theorem cmtCh_spec {c : Rune} (h : cmtCh c = true) : c ≠ 10 ∧ c ≠ 92 := by
+  simpa [cmtCh, rNL, rBS] using h
 
 /-- in comment mode every character except the newline is copied -/
 theorem foldl_comment : ∀ (cs : List Rune) (s : FState), s.comment = true → s.space = false → s.heredoc = 0 →
-    cs.all cmtCh = true →
+    s.heredocStart = false → cs.all cmtCh = true →
     cs.foldl step s = { s with rout := cs.reverse ++ s.rout, last := lastOf s.last cs }
-  | [], s, _, _, _, _ => by simp [lastOf]
-  | c :: cs, s, h1, h2, h3, hc => by
+  | [], s, _, _, _, _, _ => by simp [lastOf]
+  | c :: cs, s, h1, h2, h3, h4, hc => by
     simp only [List.all_cons, Bool.and_eq_true] at hc
-    obtain ⟨h10, h96, h92⟩ := cmtCh_spec hc.1
+    have h10 := (cmtCh_spec hc.1).1
     have hstep : step s c = { s with rout := c :: s.rout, last := c } := by
-      obtain ⟨rout, last, space, bol, ob, obw, obs, nls, cm, q, esc, hd, hde, mk, cl, nest, wbq⟩ := s
-      simp only at h1 h2 h3
-      subst h1 h2 h3
-      simp [step, step2, stepHeredoc, stepLiteral, stepLiteral2, FState.write, rBQ, rNL, h10, h96]
-    rw [List.foldl_cons, hstep, foldl_comment cs { s with rout := c :: s.rout, last := c } h1 h2 h3 hc.2]
+      obtain ⟨rout, last, space, bol, ob, obw, obs, nls, cm, q, esc, hd, hst, hde, mk, cl, nest, wbq, tke⟩ := s
+      simp only at h1 h2 h3 h4
+      subst h1 h2 h3 h4
+      simp [step, stepHeredoc, stepLiteral, FState.write, rNL, h10]
+    rw [List.foldl_cons, hstep, foldl_comment cs { s with rout := c :: s.rout, last := c } h1 h2 h3 h4 hc.2]
     simp [lastOf, List.reverse_cons, List.append_assoc]
 
 /-- the newline that ends a comment is written at once -/
-theorem comment_end {s : FState} (h1 : s.comment = true) (h2 : s.space = false) (h3 : s.heredoc = 0) :
+theorem comment_end {s : FState} (h1 : s.comment = true) (h2 : s.space = false) (h3 : s.heredoc = 0)
+    (h4 : s.heredocStart = false) :
     step s rNL = { s with rout := rNL :: s.rout, last := rNL, comment := false, space := true, bol := true } := by
-  obtain ⟨rout, last, space, bol, ob, obw, obs, nls, cm, q, esc, hd, hde, mk, cl, nest, wbq⟩ := s
-  simp only at h1 h2 h3
-  subst h1 h2 h3
-  simp [step, step2, stepHeredoc, stepLiteral, stepLiteral2, FState.nextLine, FState.write, rBQ, rNL]
+  obtain ⟨rout, last, space, bol, ob, obw, obs, nls, cm, q, esc, hd, hst, hde, mk, cl, nest, wbq, tke⟩ := s
+  simp only at h1 h2 h3 h4
+  subst h1 h2 h3 h4
+  simp [step, stepHeredoc, stepLiteral, FState.nextLine, FState.write, rNL]
 
 /-- a comment `# as` whose `#` leads to `t1` ends in an `InvM` state -/
 theorem cmt_word {t t1 : FState} {as : List Rune} {N : Nat}
     (hstep : step t rHash = t1) (has : as.all cmtCh = true) (hlast : isSpace (lastOf rHash as) = false)
     (hc : t1.comment = true) (hq : t1.quoted = false) (he : t1.escaped = false) (hh : t1.heredoc = 0)
-    (hb : t1.withinBackquote = false) (h1 : t1.space = false) (h3 : t1.newLines = 0) (h4 : t1.openBrace = false)
+    (hb : t1.backquoted = false) (hs : t1.heredocStart = false) (hte : t1.tokenEnded = false)
+    (h1 : t1.space = false) (h3 : t1.newLines = 0)
+    (h4 : t1.openBrace = false)
     (h5 : t1.nesting = N) (h6 : t1.last = rHash) (h7 : ∃ r, t1.rout = rHash :: r) :
     InvM N ((rHash :: as).foldl step t) ∧
       ((rHash :: as).foldl step t).rout = as.reverse ++ t1.rout := by
-  rw [List.foldl_cons, hstep, foldl_comment as t1 hc h1 hh has]
-  refine ⟨⟨hc, hq, he, hh, hb, h1, h3, h4, h5, ?_, ?_⟩, rfl⟩
+  rw [List.foldl_cons, hstep, foldl_comment as t1 hc h1 hh hs has]
+  refine ⟨⟨hc, hq, he, hh, hb, hs, hte, h1, h3, h4, h5, ?_, ?_⟩, rfl⟩
   · simp only [h6]; exact hlast
   · obtain ⟨r, hr⟩ := h7
     simp only [h6, hr]
@@ -511,7 +524,7 @@ theorem kind_cls_word {c : Chunk} (hk : c.kind = .cls) : c.word = [rClose] := by
     · assumption
     · split at hk <;> cases hk
 
-theorem reg_init : Reg ({} : FState) := ⟨rfl, rfl, rfl, rfl, rfl, by decide⟩
+theorem reg_init : Reg ({} : FState) := ⟨rfl, rfl, rfl, rfl, rfl, rfl, rfl, by decide⟩
 
 /-- what `InvP` and `InvC` have in common: no brace is pending -/
 structure NoPend (N : Nat) (s : FState) : Prop where
@@ -531,7 +544,7 @@ theorem reverse_tabsN (n : Nat) : (tabsN n).reverse = tabsN n := by simp [tabsN]
 theorem reverse_nlsN (n : Nat) : (nlsN n).reverse = nlsN n := by simp [nlsN]
 
 theorem reg_afterSep {s : FState} (h : Reg s) (sep : List Rune) : Reg (afterSep s sep) :=
-  ⟨h.comment, h.quoted, h.escaped, h.heredoc, h.bq, h.lastLT⟩
+  ⟨h.comment, h.quoted, h.escaped, h.heredoc, h.bq, h.hst, h.te, h.lastLT⟩
 
 theorem plain_start {a : Rune} (ha : plainCh a = true) : startCh a = true ∧ (a == rHash) = false := by
   have := plainCh_spec ha
@@ -551,7 +564,7 @@ theorem np_plain_nl {N : Nat} {s : FState} {sep : List Rune} {a : Rune} {as : Li
   rw [(plain_start ha).2] at hstep
   have hp := plainCh_spec ha
   have := plain_word (N := N) (as := as) hstep ha has
-    ⟨rfl, hreg.quoted, hreg.escaped, hreg.heredoc, hreg.bq, hp.2.2.2.1⟩ rfl rfl rfl h.ob h.nest rfl ⟨_, rfl⟩
+    ⟨rfl, hreg.quoted, hreg.escaped, hreg.heredoc, hreg.bq, hreg.hst, hreg.te, hp.2.2.2.1⟩ rfl rfl rfl h.ob h.nest rfl ⟨_, rfl⟩
   refine ⟨this.1, ?_⟩
   rw [this.2]
   simp [afterSep, h.nl, h.nest]
@@ -565,7 +578,7 @@ theorem np_cmt_nl {N : Nat} {s : FState} {sep : List Rune} {as : List Rune}
   rw [List.foldl_append, foldl_ws sep s h.reg hsep (countNL_pos_ne_nil hnl)]
   have hreg := reg_afterSep h.reg sep
   have hstep := first_start_nl (t := afterSep s sep) hreg hash_start rfl h.ob (by simp [afterSep, h.nl]; exact hnl)
-  have := cmt_word (N := N) (as := as) hstep has hlast rfl hreg.quoted hreg.escaped hreg.heredoc hreg.bq
+  have := cmt_word (N := N) (as := as) hstep has hlast rfl hreg.quoted hreg.escaped hreg.heredoc hreg.bq hreg.hst hreg.te
     rfl rfl h.ob h.nest rfl ⟨_, rfl⟩
   refine ⟨this.1, ?_⟩
   rw [this.2]
@@ -581,7 +594,7 @@ theorem np_close {N : Nat} {s : FState} {sep : List Rune}
   have hstep := first_close (t := afterSep s sep) hreg rfl h.ob hl
   simp only [List.foldl_cons, List.foldl_nil]
   rw [hstep]
-  refine ⟨⟨⟨hreg.comment, hreg.quoted, hreg.escaped, hreg.heredoc, hreg.bq, by simp [rClose]⟩, rfl, rfl, rfl, h.ob, ?_, rfl, ⟨_, rfl⟩⟩, ?_⟩
+  refine ⟨⟨⟨hreg.comment, hreg.quoted, hreg.escaped, hreg.heredoc, hreg.bq, hreg.hst, hreg.te, by simp [rClose]⟩, rfl, rfl, rfl, h.ob, ?_, rfl, ⟨_, rfl⟩⟩, ?_⟩
   · simp [afterSep, h.nest]
   · simp [afterSep, h.nest]
 
@@ -597,7 +610,7 @@ theorem p_plain_sp {N : Nat} {s : FState} {sep : List Rune} {a : Rune} {as : Lis
   rw [(plain_start ha).2] at hstep
   have hp := plainCh_spec ha
   have := plain_word (N := N) (as := as) hstep ha has
-    ⟨rfl, hreg.quoted, hreg.escaped, hreg.heredoc, hreg.bq, hp.2.2.2.1⟩ rfl h.bol (by simp [afterSep, h.nl, hnl]) h.ob h.nest rfl ⟨_, rfl⟩
+    ⟨rfl, hreg.quoted, hreg.escaped, hreg.heredoc, hreg.bq, hreg.hst, hreg.te, hp.2.2.2.1⟩ rfl h.bol (by simp [afterSep, h.nl, hnl]) h.ob h.nest rfl ⟨_, rfl⟩
   refine ⟨this.1, ?_⟩
   rw [this.2]
   simp [afterSep]
@@ -611,7 +624,7 @@ theorem p_cmt_sp {N : Nat} {s : FState} {sep : List Rune} {as : List Rune}
   rw [List.foldl_append, foldl_ws sep s h.reg hsep hne]
   have hreg := reg_afterSep h.reg sep
   have hstep := first_start_sp (t := afterSep s sep) hreg hash_start rfl h.ob (by simp [afterSep, h.nl, hnl]) h.bol
-  have := cmt_word (N := N) (as := as) hstep has hlast rfl hreg.quoted hreg.escaped hreg.heredoc hreg.bq
+  have := cmt_word (N := N) (as := as) hstep has hlast rfl hreg.quoted hreg.escaped hreg.heredoc hreg.bq hreg.hst hreg.te
     rfl (by simp [afterSep, h.nl, hnl]) h.ob h.nest rfl ⟨_, rfl⟩
   refine ⟨this.1, ?_⟩
   rw [this.2]
@@ -627,7 +640,7 @@ theorem p_open {N : Nat} {s : FState} {sep : List Rune}
   have hstep := first_open_sp (t := afterSep s sep) hreg rfl h.ob h.bol
   simp only [List.foldl_cons, List.foldl_nil]
   rw [hstep]
-  refine ⟨⟨⟨hreg.comment, hreg.quoted, hreg.escaped, hreg.heredoc, hreg.bq, by simp [rSP]⟩, rfl, rfl, rfl, ?_, by simp [rSP], ?_, Or.inl ⟨h.bol, rfl⟩⟩, rfl⟩
+  refine ⟨⟨⟨hreg.comment, hreg.quoted, hreg.escaped, hreg.heredoc, hreg.bq, hreg.hst, hreg.te, by simp [rSP]⟩, rfl, rfl, rfl, ?_, by simp [rSP], ?_, Or.inl ⟨h.bol, rfl⟩⟩, rfl⟩
   · simp [afterSep, h.nl, hnl]
   · simp [afterSep, h.nest]
 
@@ -643,7 +656,7 @@ theorem o_plain {N : Nat} {s : FState} {sep : List Rune} {a : Rune} {as : List R
   rw [(plain_start ha).2] at hstep
   have hp := plainCh_spec ha
   have := plain_word (N := N) (as := as) hstep ha has
-    ⟨rfl, hreg.quoted, hreg.escaped, hreg.heredoc, hreg.bq, hp.2.2.2.1⟩ rfl rfl rfl rfl (by simp [afterSep, h.nest]) rfl ⟨_, rfl⟩
+    ⟨rfl, hreg.quoted, hreg.escaped, hreg.heredoc, hreg.bq, hreg.hst, hreg.te, hp.2.2.2.1⟩ rfl rfl rfl rfl (by simp [afterSep, h.nest]) rfl ⟨_, rfl⟩
   refine ⟨this.1, ?_⟩
   rw [this.2]
   simp [afterSep, h.nest]
@@ -657,7 +670,7 @@ theorem o_cmt {N : Nat} {s : FState} {sep : List Rune} {as : List Rune}
   rw [List.foldl_append, foldl_ws sep s h.reg hsep (countNL_pos_ne_nil hnl)]
   have hreg := reg_afterSep h.reg sep
   have hstep := pending_start (t := afterSep s sep) hreg hash_start rfl h.ob h.obw h.last h.shape
-  have := cmt_word (N := N) (as := as) hstep has hlast rfl hreg.quoted hreg.escaped hreg.heredoc hreg.bq
+  have := cmt_word (N := N) (as := as) hstep has hlast rfl hreg.quoted hreg.escaped hreg.heredoc hreg.bq hreg.hst hreg.te
     rfl rfl rfl (by simp [afterSep, h.nest]) rfl ⟨_, rfl⟩
   refine ⟨this.1, ?_⟩
   rw [this.2]
@@ -673,7 +686,7 @@ theorem o_close {N : Nat} {s : FState} {sep : List Rune}
   have hstep := pending_close (t := afterSep s sep) hreg rfl h.ob h.obw h.last h.shape
   simp only [List.foldl_cons, List.foldl_nil]
   rw [hstep]
-  refine ⟨⟨⟨hreg.comment, hreg.quoted, hreg.escaped, hreg.heredoc, hreg.bq, by simp [rClose]⟩, rfl, rfl, rfl, rfl, ?_, rfl, ⟨_, rfl⟩⟩, ?_⟩
+  refine ⟨⟨⟨hreg.comment, hreg.quoted, hreg.escaped, hreg.heredoc, hreg.bq, hreg.hst, hreg.te, by simp [rClose]⟩, rfl, rfl, rfl, rfl, ?_, rfl, ⟨_, rfl⟩⟩, ?_⟩
   · simp [afterSep, h.nest]
   · simp [afterSep, h.nest]
 
@@ -684,9 +697,9 @@ theorem init_plain {a : Rune} {as : List Rune} (ha : plainCh a = true) (has : as
   have hstep : step ({} : FState) a = { ({} : FState) with rout := [a], last := a, space := false, bol := false } := by
     rw [step_plain reg_init ha]
     simp [maybeFlush, stepWord, stepWord2, stepWord3, stepWord4, stepWord5, stepWord6, FState.nextLines, FState.indent,
-      FState.tabs, FState.write, rClose, rLT, hp.2.2.2.1]
+      FState.tabs, FState.write, rClose]
   have := plain_word (N := 0) (as := as) hstep ha has
-    ⟨rfl, rfl, rfl, rfl, rfl, hp.2.2.2.1⟩ rfl rfl rfl rfl rfl rfl ⟨_, rfl⟩
+    ⟨rfl, rfl, rfl, rfl, rfl, rfl, rfl, hp.2.2.2.1⟩ rfl rfl rfl rfl rfl rfl ⟨_, rfl⟩
   exact ⟨this.1, this.2⟩
 
 /-- the input starts with a comment -/
@@ -694,12 +707,12 @@ theorem init_cmt {as : List Rune} (has : as.all cmtCh = true) (hlast : isSpace (
     InvM 0 ((rHash :: as).foldl step {}) ∧ ((rHash :: as).foldl step {}).rout = as.reverse ++ [rHash] := by
   have hstep : step ({} : FState) rHash
       = { ({} : FState) with rout := [rHash], last := rHash, space := false, bol := false, comment := true } := by decide
-  have := cmt_word (N := 0) (as := as) hstep has hlast rfl rfl rfl rfl rfl rfl rfl rfl rfl rfl ⟨_, rfl⟩
+  have := cmt_word (N := 0) (as := as) hstep has hlast rfl rfl rfl rfl rfl rfl rfl rfl rfl rfl rfl rfl ⟨_, rfl⟩
   exact ⟨this.1, this.2⟩
 
 /-- the very first word is `{` -/
 theorem init_open : InvO 1 (([rOpen] : List Rune).foldl step {}) ∧ (([rOpen] : List Rune).foldl step {}).rout = [] := by
-  refine ⟨⟨⟨rfl, rfl, rfl, rfl, rfl, by decide⟩, rfl, rfl, rfl, rfl, by decide, rfl, Or.inr ⟨rfl, rfl⟩⟩, rfl⟩
+  refine ⟨⟨⟨rfl, rfl, rfl, rfl, rfl, rfl, rfl, by decide⟩, rfl, rfl, rfl, rfl, by decide, rfl, Or.inr ⟨rfl, rfl⟩⟩, rfl⟩
 
 /-- white space in a state whose `space` flag is already set (possibly no white space at all) -/
 theorem foldl_ws_space {ws : List Rune} {s : FState} (hr : Reg s) (hws : ws.all wsCh = true) (hs : s.space = true) :
@@ -707,12 +720,12 @@ theorem foldl_ws_space {ws : List Rune} {s : FState} (hr : Reg s) (hws : ws.all 
   cases ws with
   | nil =>
     refine ⟨s.heredocEscaped, ?_⟩
-    obtain ⟨rout, last, space, bol, ob, obw, obs, nls, cm, q, esc, hd, hde, mk, cl, nest, wbq⟩ := s
+    obtain ⟨rout, last, space, bol, ob, obw, obs, nls, cm, q, esc, hd, hst, hde, mk, cl, nest, wbq, tke⟩ := s
     simp [countNL]
   | cons c ws =>
     refine ⟨false, ?_⟩
     rw [foldl_ws (c :: ws) s hr hws (by simp)]
-    obtain ⟨rout, last, space, bol, ob, obw, obs, nls, cm, q, esc, hd, hde, mk, cl, nest, wbq⟩ := s
+    obtain ⟨rout, last, space, bol, ob, obw, obs, nls, cm, q, esc, hd, hst, hde, mk, cl, nest, wbq, tke⟩ := s
     simp only at hs
     subst hs
     rfl
@@ -721,11 +734,11 @@ theorem foldl_ws_space {ws : List Rune} {s : FState} (hr : Reg s) (hws : ws.all 
 theorem after_comment_sep {N : Nat} {s : FState} {ws : List Rune} (h : InvM N s) (hws : ws.all wsCh = true) :
     ∃ t, (rNL :: ws).foldl step s = t ∧ Reg t ∧ t.space = true ∧ t.openBrace = false ∧ t.nesting = N ∧
       t.bol = true ∧ t.last = 10 ∧ t.newLines = countNL ws ∧ t.rout = rNL :: s.rout := by
-  rw [List.foldl_cons, comment_end h.comment h.space h.heredoc]
+  rw [List.foldl_cons, comment_end h.comment h.space h.heredoc h.hst]
   have hreg : Reg { s with rout := rNL :: s.rout, last := rNL, comment := false, space := true, bol := true } :=
-    ⟨rfl, h.quoted, h.escaped, h.heredoc, h.bq, by simp [rNL]⟩
+    ⟨rfl, h.quoted, h.escaped, h.heredoc, h.bq, h.hst, h.te, by simp [rNL]⟩
   obtain ⟨he, hfold⟩ := foldl_ws_space hreg hws rfl
-  refine ⟨_, hfold, ⟨rfl, h.quoted, h.escaped, h.heredoc, h.bq, by simp [rNL]⟩, rfl, h.ob, h.nest, rfl, rfl, ?_, rfl⟩
+  refine ⟨_, hfold, ⟨rfl, h.quoted, h.escaped, h.heredoc, h.bq, h.hst, h.te, by simp [rNL]⟩, rfl, h.ob, h.nest, rfl, rfl, ?_, rfl⟩
   simp [h.nl]
 
 /-- after a comment: a plain word on one of the following lines -/
@@ -741,14 +754,14 @@ theorem m_plain {N : Nat} {s : FState} {ws : List Rune} {a : Rune} {as : List Ru
   · have hstep := first_start_bol (t := t) hreg (plain_start ha).1 hsp hob (by rw [hnl, hk]) hbol hlast
     rw [(plain_start ha).2] at hstep
     have := plain_word (N := N) (as := as) hstep ha has
-      ⟨rfl, hreg.quoted, hreg.escaped, hreg.heredoc, hreg.bq, hp.2.2.2.1⟩ rfl rfl (by simp [hnl, hk]) hob hnest rfl ⟨_, rfl⟩
+      ⟨rfl, hreg.quoted, hreg.escaped, hreg.heredoc, hreg.bq, hreg.hst, hreg.te, hp.2.2.2.1⟩ rfl rfl (by simp [hnl, hk]) hob hnest rfl ⟨_, rfl⟩
     refine ⟨this.1, ?_⟩
     rw [this.2]
     simp [hk, hnest, hrout, nlsN]
   · have hstep := first_start_nl (t := t) hreg (plain_start ha).1 hsp hob (by rw [hnl]; omega)
     rw [(plain_start ha).2] at hstep
     have := plain_word (N := N) (as := as) hstep ha has
-      ⟨rfl, hreg.quoted, hreg.escaped, hreg.heredoc, hreg.bq, hp.2.2.2.1⟩ rfl rfl rfl hob hnest rfl ⟨_, rfl⟩
+      ⟨rfl, hreg.quoted, hreg.escaped, hreg.heredoc, hreg.bq, hreg.hst, hreg.te, hp.2.2.2.1⟩ rfl rfl rfl hob hnest rfl ⟨_, rfl⟩
     refine ⟨this.1, ?_⟩
     rw [this.2]
     simp [hnest, hrout, hnl]
@@ -763,13 +776,13 @@ theorem m_cmt {N : Nat} {s : FState} {ws : List Rune} {as : List Rune}
   rw [List.foldl_append, ht]
   by_cases hk : countNL ws = 0
   · have hstep := first_start_bol (t := t) hreg hash_start hsp hob (by rw [hnl, hk]) hbol hlast
-    have := cmt_word (N := N) (as := as) hstep has hlast' rfl hreg.quoted hreg.escaped hreg.heredoc hreg.bq
+    have := cmt_word (N := N) (as := as) hstep has hlast' rfl hreg.quoted hreg.escaped hreg.heredoc hreg.bq hreg.hst hreg.te
       rfl (by simp [hnl, hk]) hob hnest rfl ⟨_, rfl⟩
     refine ⟨this.1, ?_⟩
     rw [this.2]
     simp [hk, hnest, hrout, nlsN]
   · have hstep := first_start_nl (t := t) hreg hash_start hsp hob (by rw [hnl]; omega)
-    have := cmt_word (N := N) (as := as) hstep has hlast' rfl hreg.quoted hreg.escaped hreg.heredoc hreg.bq
+    have := cmt_word (N := N) (as := as) hstep has hlast' rfl hreg.quoted hreg.escaped hreg.heredoc hreg.bq hreg.hst hreg.te
       rfl rfl hob hnest rfl ⟨_, rfl⟩
     refine ⟨this.1, ?_⟩
     rw [this.2]
@@ -784,7 +797,7 @@ theorem m_close {N : Nat} {s : FState} {ws : List Rune} (h : InvM N s) (hws : ws
   have hstep := first_close_bol (t := t) hreg hsp hob hlast
   simp only [List.foldl_cons, List.foldl_nil]
   rw [hstep]
-  refine ⟨⟨⟨hreg.comment, hreg.quoted, hreg.escaped, hreg.heredoc, hreg.bq, by simp [rClose]⟩, rfl, hbol, rfl, hob, ?_, rfl, ⟨_, rfl⟩⟩, ?_⟩
+  refine ⟨⟨⟨hreg.comment, hreg.quoted, hreg.escaped, hreg.heredoc, hreg.bq, hreg.hst, hreg.te, by simp [rClose]⟩, rfl, hbol, rfl, hob, ?_, rfl, ⟨_, rfl⟩⟩, ?_⟩
   · simp [hnest]
   · simp [hnest, hrout]
 
@@ -997,7 +1010,8 @@ theorem chunk_step {prev : Option Kind} {N : Nat} {s : FState} {c : Chunk} {cs :
 theorem fmt_chunks : ∀ (cs : List Chunk) (prev : Option Kind) (N : Nat) (s : FState),
     goodFrom prev cs = true → Inv prev N s →
     (∃ c r, ((flatten cs).foldl step s).rout = c :: r ∧ isSpace c = false) ∧
-      ((flatten cs).foldl step s).rout.reverse = outOf s ++ flatten (canon prev N cs)
+      ((flatten cs).foldl step s).rout.reverse = outOf s ++ flatten (canon prev N cs) ∧
+      flushEnd ((flatten cs).foldl step s) = (flatten cs).foldl step s
   | [], prev, N, s, hg, hinv => by
     simp only [goodFrom, Bool.or_eq_true, beq_iff_eq] at hg
     simp only [flatten, List.foldl_nil, canon, List.append_nil]
@@ -1005,15 +1019,15 @@ theorem fmt_chunks : ∀ (cs : List Chunk) (prev : Option Kind) (N : Nat) (s : F
     · subst hg
       have h : InvP N s := hinv
       obtain ⟨r, hr⟩ := h.head
-      exact ⟨⟨_, r, hr, h.lastNS⟩, (outOf_np h.np).symm⟩
+      exact ⟨⟨_, r, hr, h.lastNS⟩, (outOf_np h.np).symm, by simp [flushEnd, h.ob]⟩
     · subst hg
       have h : InvC N s := hinv
       obtain ⟨r, hr⟩ := h.head
-      exact ⟨⟨_, r, hr, by decide⟩, (outOf_np h.np).symm⟩
+      exact ⟨⟨_, r, hr, by decide⟩, (outOf_np h.np).symm, by simp [flushEnd, h.ob]⟩
     · subst hg
       have h : InvM N s := hinv
       obtain ⟨r, hr⟩ := h.head
-      exact ⟨⟨_, r, hr, h.lastNS⟩, (outOf_m h).symm⟩
+      exact ⟨⟨_, r, hr, h.lastNS⟩, (outOf_m h).symm, by simp [flushEnd, h.ob]⟩
   | c :: cs, prev, N, s, hg, hinv => by
     have h1 := chunk_step hg hinv
     have hg' : goodFrom (some c.kind) cs = true := by
@@ -1022,8 +1036,8 @@ theorem fmt_chunks : ∀ (cs : List Chunk) (prev : Option Kind) (N : Nat) (s : F
     have hfl : (flatten (c :: cs)).foldl step s = (flatten cs).foldl step ((c.sep ++ c.word).foldl step s) := by
       simp only [flatten, List.foldl_append]
     rw [hfl]
-    refine ⟨h2.1, ?_⟩
-    rw [h2.2, h1.2]
+    refine ⟨h2.1, ?_, h2.2.2⟩
+    rw [h2.2.1, h1.2]
     simp only [canon, flatten, List.append_assoc]
 
 theorem dropWhile_all_append (p : Rune → Bool) : ∀ (l r : List Rune), l.all p = true →
@@ -1098,23 +1112,49 @@ theorem flatten_last : ∀ (cs : List Chunk) (prev : Option Kind), goodFrom prev
 theorem canon_none_head (N : Nat) (c : Chunk) (cs : List Chunk) :
     canon none N (c :: cs) = ⟨[], c.word⟩ :: canon (some c.kind) (nextN N c.kind) cs := rfl
 
+theorem word_head_not_bom {c : Chunk} (hw : c.wordOK = true) {a : Rune} {r : List Rune} (h : c.word = a :: r) :
+    a ≠ rBOM := by
+  unfold Chunk.wordOK at hw
+  rw [h] at hw
+  simp only [Bool.or_eq_true, beq_iff_eq, Bool.and_eq_true, Bool.not_eq_true', List.cons.injEq] at hw
+  rcases hw with (hw | hw) | hw
+  · rw [hw.1]; decide
+  · rw [hw.1]; decide
+  · rcases hw with hw | hw
+    · rw [hw.1.1]; decide
+    · exact (plainCh_spec hw.1).2.2.2.2.2.2.2.2
+
 /-- **`Format` on the fragment**: surrounding white space is trimmed and the chunks are
     re-rendered canonically, followed by one newline -/
 theorem format_on_chunks {lead trail : List Rune} {c : Chunk} {cs : List Chunk}
     (hl : lead.all isSpace = true) (ht : trail.all isSpace = true) (hs : c.sep = [])
     (hg : goodFrom none (c :: cs) = true) :
     format (lead ++ (flatten (c :: cs) ++ trail)) = flatten (canon none 0 (c :: cs)) ++ [rNL] := by
-  have htrim := trimSpace_sandwich hl ht (flatten_head hg hs) (flatten_last _ _ hg (by simp))
-  have hmain := fmt_chunks (c :: cs) none 0 {} hg ⟨rfl, rfl⟩
-  obtain ⟨⟨z, r, hz, hzs⟩, hout⟩ := hmain
-  unfold format run finish trimLeft
-  rw [htrim, hz, dropWhile_head_false isSpace z r hzs, ← hz, hout]
-  simp only [outOf, List.reverse_nil, List.nil_append]
+  have hhead := flatten_head hg hs
+  have hlast := flatten_last _ _ hg (by simp)
+  have htrim := trimSpace_sandwich hl ht hhead hlast
+  have htrim2 : trimSpace (flatten (c :: cs)) = flatten (c :: cs) := by
+    have := trimSpace_sandwich (lead := []) (trail := []) rfl rfl hhead hlast
+    simpa using this
   have hw : c.wordOK = true := by simp only [goodFrom, Bool.and_eq_true] at hg; exact hg.1.1.2
   obtain ⟨a, r', hw', ha⟩ := (word_nonspace hw).1
-  have : flatten (canon none 0 (c :: cs)) = a :: (r' ++ flatten (canon (some c.kind) (nextN 0 c.kind) cs)) := by
-    simp [canon_none_head, flatten, hw']
-  rw [show ((if ({} : FState).openBrace && !({} : FState).openBraceWritten then [rOpen] else []) : List Rune) = [] from rfl,
-    List.nil_append, this, dropWhile_head_false isSpace a _ ha]
+  have hbom := word_head_not_bom hw hw'
+  have hfl : flatten (c :: cs) = a :: (r' ++ flatten cs) := by simp [flatten, hs, hw']
+  have hne : (lead ++ (flatten (c :: cs) ++ trail)).isEmpty = false := by
+    rw [hfl]; cases lead <;> simp
+  have hmain := fmt_chunks (c :: cs) none 0 {} hg ⟨rfl, rfl⟩
+  obtain ⟨⟨z, r, hz, hzs⟩, hout, hfe⟩ := hmain
+  have hcore : formatCore (flatten (c :: cs)) = flatten (canon none 0 (c :: cs)) ++ [rNL] := by
+    unfold formatCore run finish trimLeft
+    rw [htrim2, hfe, hz, dropWhile_head_false isSpace z r hzs, ← hz, hout]
+    simp only [outOf, List.reverse_nil, List.nil_append]
+    have : flatten (canon none 0 (c :: cs)) = a :: (r' ++ flatten (canon (some c.kind) (nextN 0 c.kind) cs)) := by
+      simp [canon_none_head, flatten, hw']
+    rw [show ((if ({} : FState).openBrace && !({} : FState).openBraceWritten then [rOpen] else []) : List Rune) = [] from rfl,
+      List.nil_append, this, dropWhile_head_false isSpace a _ ha]
+  unfold format
+  rw [hne, htrim, hfl]
+  simp only [Bool.false_eq_true, ↓reduceIte, hbom]
+  rw [← hfl]; exact hcore
 
 end CaddyModel.C17
